@@ -1,6 +1,6 @@
 """C08 - a deserialized engine behaves identically to the engine that was serialized."""
 from lib import vlib
-from checks import netcommon, coscommon
+from checks import netcommon, coscommon, enginecommon
 
 
 def run(tier, seed):
@@ -14,6 +14,8 @@ def run(tier, seed):
     _, repc = coscommon.mc_and_replay(v, wd, "c16", 2 if tier == "quick" else 3)
     _, reps = coscommon.mc_and_replay(v, wd, "c18", 1 if tier == "quick" else 2)
     _, repk = coscommon.mc_and_replay(v, wd, "c17b", 3)
+    runs, nops = (2, 800) if tier == "quick" else (8, 3000)
+    enginecommon.longhist_stage(v, wd, seed, "engine", runs, nops)
     v.assumptions += ["the reloaded engine gets the caller's tags before loading and the same resources after it",
                       "equality is checked both against the Ideal (both engines must give an allowed answer) and literally (reloaded == original)"]
     return v.finish("model_checking",
